@@ -264,7 +264,7 @@ fn render_loose(f: &F, rng: &mut Rng) -> String {
     }
 }
 
-fn random_string(rng: &mut Rng) -> (String, &'static str) {
+pub fn random_string(rng: &mut Rng) -> (String, &'static str) {
     let props: Vec<String> = ["a", "b", "EXa", "V1", "3x", "p_1"].iter().map(|s| s.to_string()).collect();
     let mut fopts = FormOpts::plain();
     fopts.bin_ops = ALL_BIN.to_vec();
